@@ -13,6 +13,7 @@ reference build (harness, every run) and by the mirror theorem of C02.
 import Preflate.Gen.Consts
 import Preflate.Ref.Consts
 import Preflate.Props.C02
+import Preflate.Proofs.PolicyCalls
 namespace Preflate
 
 /-- the format-relevant constants (estimator-only tables and scanner thresholds are NOT here:
@@ -87,5 +88,13 @@ theorem gen_eq_ref : versionsEqual = true → formatEqual = true := by
 /-- the frozen reference is non-trivial (non-vacuity of the comparison) -/
 example : Ref.CRC32C_TABLE.length = 256 ∧ Ref.RANDOM_VECTOR.length = 768 ∧ Ref.DIST_CODE_TABLE.length = 512 ∧
     Ref.PARAM_READ_MIDDLE.length = 9 := by decide +kernel
+
+/-- which positions enter the hash chains is part of the stored format: the model's add-policy dispatch
+    performs exactly the update calls listed by `Chains.updateCalls`, the function the `policy` requests
+    compare with the code's `DictionaryAddPolicy::update_hash` at every boundary position -/
+theorem add_policy_calls (p : Params) (plain : Array Nat) (c : Chains.Chain) (pos len : Nat) :
+    Chains.policyUpdate p plain c pos len =
+      (Chains.updateCalls p pos len).foldl (fun c (q : Nat × Nat) => c.update p plain q.1 q.2) c :=
+  Proofs.policyUpdate_eq_calls p plain c pos len
 
 end Preflate
